@@ -98,6 +98,12 @@ def build_unit(unit, canary=False, lenient=False, stub=None):
     meta = u.meta()
     with open(os.path.join(GEN, unit + suffix + ".meta.json"), "w") as f:
         json.dump(meta, f, indent=1)
+    if not canary and not lenient and not stub:
+        top = os.path.join(WORK, "gen")
+        tmp = os.path.join(top, ".%s.meta.%d" % (unit, os.getpid()))
+        with open(tmp, "w") as f:
+            json.dump(meta, f, indent=1)
+        os.replace(tmp, os.path.join(top, unit + ".meta.json"))
     # rewrite-rule counts must equal the committed expectation (lost anchor otherwise)
     exp = CONFIG["units"][unit].get("rewrite_counts")
     if exp is not None and not canary and not lenient and not stub:
@@ -539,8 +545,11 @@ def run_purity(pid, cfg):
 
 
 def check_property(pid, tier, seed):
-    global _THOROUGH
+    global _THOROUGH, GEN
     _THOROUGH = (tier == "thorough")
+    # generated Verus files go to a directory of their own per property, so that checks of different properties that
+    # share a unit can run at the same time without overwriting each other's files
+    GEN = os.path.join(WORK, "gen", pid)
     t0 = time.time()
     cfg = CONFIG["properties"][pid]
     os.makedirs(REPLAYS, exist_ok=True)
@@ -635,7 +644,7 @@ def check_property(pid, tier, seed):
         discharged = len([1 for (_, l) in labelled if l not in failed_labels]) + len(body_obl) - len(set(f["fn"] for f in unl_fail))
         cov["obligations"] = obligations
         cov["discharged"] = discharged
-        cov["checker_cmd"] = "; ".join(r["res"]["cmd"] + "  (in .work/gen, file regenerated from /repo by tools/extract.py)" for r in results)
+        cov["checker_cmd"] = "; ".join(r["res"]["cmd"] + "  (in .work/gen/<property>, file regenerated from /repo by tools/extract.py)" for r in results)
         cov["back_end"] = "Verus %s / Z3 (bundled)" % (results[0]["res"]["json"].get("verus", {}).get("version", "?"))
         cov["solver_time_ms"] = smt_ms
         cov["functions_under_contract"] = functions_under_contract
